@@ -7,8 +7,9 @@
 (*   decode(k, r, O, R)  O, R : sequences of <<index, length>>             *)
 (*                                                                         *)
 (* They are DEFINED as the streaming API applied to the arguments: create  *)
-(* a ReedSolomonEncoder/Decoder for the inferred shard size (length of the *)
-(* first recovery shard, else of the first original), add the originals in *)
+(* a ReedSolomonEncoder/Decoder for the inferred shard size (the code takes *)
+(* the first recovery shard, else the first original; the CONTRACT does    *)
+(* not depend on which shard it is inferred from), add the originals in    *)
 (* order, then the recovery shards, then encode/decode.  StreamEncode /     *)
 (* StreamDecode below are exactly that fold over the rule sets of          *)
 (* CodecRules.tla.  Because the property leaves open which truthful error  *)
@@ -19,6 +20,8 @@
 EXTENDS CodecRules, SequencesExt
 
 IdxOf(s) == [t \in DOMAIN s |-> s[t][1]]
+\* "a shard of another size than the configured one": any ordered pair of different given lengths
+DiffErrs(S) == {[err |-> "DifferentShardSize", shard_bytes |-> p[1], got |-> p[2]] : p \in {q \in S \X S : q[1] # q[2]}}
 LenOfItem(x) == x[2]
 
 (***************************************************************************)
@@ -30,8 +33,10 @@ EncodeContract(k, r, L) ==
 \cup (IF Len(L) < k /\ ~Huge(k) THEN {[err |-> "TooFewOriginalShards", original_count |-> k, original_received_count |-> n] : n \in {Len(L)}} ELSE {})
 \cup (IF Huge(k) THEN {[err |-> "TooFewOriginalShards", original_count |-> k, original_received_count |-> Len(L)]} ELSE {})
 \cup (IF ~Huge(k) /\ Len(L) > k THEN {[err |-> "TooManyOriginalShards", original_count |-> k]} ELSE {})
-\cup (IF Len(L) > 0 /\ BadSize(L[1]) THEN {[err |-> "InvalidShardSize", shard_bytes |-> L[1]]} ELSE {})
-\cup {[err |-> "DifferentShardSize", shard_bytes |-> L[1], got |-> L[t]] : t \in {t \in DOMAIN L : L[t] # L[1]}}
+\* sizes: WHICH shard the size is inferred from is not part of the property - any given length that is invalid, and any two
+\* given lengths that differ, are truthfully reported
+\cup {[err |-> "InvalidShardSize", shard_bytes |-> L[t]] : t \in {t \in DOMAIN L : BadSize(L[t])}}
+\cup DiffErrs({L[t] : t \in DOMAIN L})
 
 \* the streaming run: first failing step's violation set, or {} when every step succeeds
 StreamEncode(k, r, L) ==
@@ -53,6 +58,7 @@ StreamEncode(k, r, L) ==
 InferredSize(O, R) == IF Len(R) > 0 THEN R[1][2] ELSE IF Len(O) > 0 THEN O[1][2] ELSE -1   \* -1: nothing to infer from
 HasSize(O, R) == Len(R) > 0 \/ Len(O) > 0
 
+AllLens(O, R) == {O[t][2] : t \in DOMAIN O} \cup {R[t][2] : t \in DOMAIN R}
 DupIdx(s) == {s[t][1] : t \in {t \in DOMAIN s : \E u \in DOMAIN s : u < t /\ s[u][1] = s[t][1]}}
 ValidDistinct(s, cnt) == {s[t][1] : t \in {t \in DOMAIN s : ~Ge(s[t][1], cnt)}}
 
@@ -62,13 +68,12 @@ DecodeContract(k, r, O, R) ==
       dvR == Cardinality(ValidDistinct(R, r)) IN
      (IF ~SupportsE("default", k, r)
       THEN {[err |-> "UnsupportedShardCount", original_count |-> k, recovery_count |-> r]} ELSE {})
-\cup (IF HasSize(O, R) /\ BadSize(sb) THEN {[err |-> "InvalidShardSize", shard_bytes |-> sb]} ELSE {})
+\cup {[err |-> "InvalidShardSize", shard_bytes |-> l] : l \in {l \in AllLens(O, R) : BadSize(l)}}
 \cup {[err |-> "InvalidOriginalShardIndex", original_count |-> k, index |-> O[t][1]] : t \in {t \in DOMAIN O : Ge(O[t][1], k)}}
 \cup {[err |-> "InvalidRecoveryShardIndex", recovery_count |-> r, index |-> R[t][1]] : t \in {t \in DOMAIN R : Ge(R[t][1], r)}}
 \cup {[err |-> "DuplicateOriginalShardIndex", index |-> i] : i \in DupIdx(O)}
 \cup {[err |-> "DuplicateRecoveryShardIndex", index |-> i] : i \in DupIdx(R)}
-\cup {[err |-> "DifferentShardSize", shard_bytes |-> sb, got |-> O[t][2]] : t \in {t \in DOMAIN O : O[t][2] # sb}}
-\cup {[err |-> "DifferentShardSize", shard_bytes |-> sb, got |-> R[t][2]] : t \in {t \in DOMAIN R : R[t][2] # sb}}
+\cup DiffErrs(AllLens(O, R))
 \* "not enough shards: a original + b recovery < original_count" must be what the text asserts and true of the input
 \cup (IF Huge(k) \/ dvO + dvR >= k THEN {}
       ELSE {[err |-> "NotEnoughShards", original_count |-> k, original_received_count |-> a, recovery_received_count |-> b] :
